@@ -59,6 +59,12 @@ def _bellman_ford_rust(
     if result["has_negative_cycle"]:
         return Result(None, float("-inf"), result["iterations"], 0, Status.UNBOUNDED)
 
+    # Same guard as the Python implementation: a predecessor cycle is a negative cycle that rounding hid.
+    from solvor.bellman_ford import _has_parent_cycle
+
+    if _has_parent_cycle(result["predecessors"]):
+        return Result(None, float("-inf"), result["iterations"], 0, Status.UNBOUNDED)
+
     # Reconstruct path if target specified
     if target is not None:
         if result["distances"][target] == float("inf"):
